@@ -136,7 +136,35 @@ func (w *walker) add(callee string, lits []string, ctx []string) {
 	w.sites = append(w.sites, site{callee, lits, append([]string(nil), ctx...)})
 }
 
+// constString folds a constant string expression ("a" + "b", parentheses).
+func constString(e ast.Expr) (string, bool) {
+	switch v := e.(type) {
+	case *ast.BasicLit:
+		if v.Kind == token.STRING {
+			s, err := strconv.Unquote(v.Value)
+			return s, err == nil
+		}
+	case *ast.ParenExpr:
+		return constString(v.X)
+	case *ast.BinaryExpr:
+		if v.Op == token.ADD {
+			a, ok1 := constString(v.X)
+			b, ok2 := constString(v.Y)
+			return a + b, ok1 && ok2
+		}
+	}
+	return "", false
+}
+
 func litOf(e ast.Expr) string {
+	if b, ok := e.(*ast.BinaryExpr); ok {
+		if s, ok := constString(b); ok {
+			return s
+		}
+	}
+	if p, ok := e.(*ast.ParenExpr); ok {
+		return litOf(p.X)
+	}
 	switch v := e.(type) {
 	case *ast.BasicLit:
 		if v.Kind == token.STRING {
@@ -371,9 +399,10 @@ func analyse(fd *ast.FuncDecl) *fnInfo {
 
 // describe names a local variable by where its value comes from, never by its identifier:
 // receiver $r, parameter $p<i>, named result $res<i>, parameter of a function literal $c<i>,
-// `x, y := f(..)` $f / $f.2 (last name of the callee), `v, ok := e.(T)` $assert.2,
-// `v, ok := m[k]` $index.2, range variables $range.1 / $range.2, constants $const, other $expr,
-// `var x T` $var.  For a variable assigned several times the first definition counts.
+// `x, y := f(..)` $f / $f.2 for a recorded callee f (last name), `v, ok := e.(T)` $assert.2,
+// `v, ok := m[k]` $index.2, range variables $range.1 / $range.2, anything else $v / $v.2
+// (pure helpers, constants, zero values: how a value is put together does not matter).
+// For a variable assigned several times the first definition counts.
 func (fi *fnInfo) describe(obj *ast.Object) string {
 	flat := func(fl *ast.FieldList, f *ast.Field, id string) int {
 		if fl == nil {
@@ -396,7 +425,7 @@ func (fi *fnInfo) describe(obj *ast.Object) string {
 	}
 	rhs := func(lhs int, nl int, r []ast.Expr) string {
 		if len(r) == 0 {
-			return "$var"
+			return "$v"
 		}
 		e, k := r[0], lhs+1
 		if len(r) == nl {
@@ -409,32 +438,25 @@ func (fi *fnInfo) describe(obj *ast.Object) string {
 			}
 			break
 		}
-		name := "$expr"
+		// only callees of the whitelist (device I/O, the module's own functions) give their name:
+		// how a value is put together by pure helpers (Sprintf or +, Itoa, TrimSpace, a constant
+		// or a zero value) is not part of the normal form
+		name := "$v"
 		switch v := e.(type) {
 		case *ast.CallExpr:
-			if n, _ := calleeName(v.Fun); n != "" {
+			if n, prim := calleeName(v.Fun); n != "" && (interesting[n] || prim) {
 				name = "$" + n
-			} else {
-				name = "$call"
 			}
 		case *ast.TypeAssertExpr:
 			name = "$assert"
 		case *ast.IndexExpr:
-			name = "$index"
-		case *ast.BasicLit:
-			name = "$const"
-		case *ast.Ident:
-			if v.Obj == nil && (v.Name == "true" || v.Name == "false" || v.Name == "nil") {
-				name = "$const"
+			if nl > 1 && len(r) == 1 {
+				name = "$index"
 			}
-		case *ast.CompositeLit:
-			name = "$lit"
 		case *ast.UnaryExpr:
 			if v.Op == token.RANGE {
 				name = "$range"
 				k = lhs + 1
-			} else if _, ok := v.X.(*ast.CompositeLit); ok && v.Op == token.AND {
-				name = "$lit"
 			}
 		}
 		if k > 0 && (nl > 1 || name == "$range") {
@@ -524,10 +546,21 @@ func (n *normer) rw(e ast.Expr) ast.Expr {
 		}
 		return &ast.Ident{Name: n.fi.describe(obj)}
 	case *ast.BasicLit:
+		if s, ok := constString(v); ok {
+			return &ast.BasicLit{Kind: token.STRING, Value: strconv.Quote(s)} // one spelling for `..` and ".."
+		}
 		return &ast.BasicLit{Kind: v.Kind, Value: v.Value}
 	case *ast.BinaryExpr:
 		x := n.rw(v.X)
-		return &ast.BinaryExpr{X: x, Op: v.Op, Y: n.rw(v.Y)}
+		y := n.rw(v.Y)
+		if v.Op == token.ADD {
+			if a, ok := constString(x); ok {
+				if b, ok := constString(y); ok {
+					return &ast.BasicLit{Kind: token.STRING, Value: strconv.Quote(a + b)}
+				}
+			}
+		}
+		return &ast.BinaryExpr{X: x, Op: v.Op, Y: y}
 	case *ast.UnaryExpr:
 		return &ast.UnaryExpr{Op: v.Op, X: n.rw(v.X)}
 	case *ast.ParenExpr:
